@@ -305,6 +305,13 @@ def build_expr(node, env):
         return functions.Cast(A(node[1]), node[2])
     if k == "nested":
         return terms.NestedCriterion(enums.Equality.eq, enums.Boolean.and_, A(node[1]), A(node[2]), A(node[3]))
+    if k in ("joinon", "joinusing", "joincross"):
+        how = getattr(enums.JoinType, node[2]) if len(node) > 2 and node[2] else enums.JoinType.inner
+        if k == "joinon":
+            return queries.JoinOn(A(node[1]), how, A(node[3]))
+        if k == "joinusing":
+            return queries.JoinUsing(A(node[1]), how, [P.Field(n) for n in node[3]])
+        return queries.Join(A(node[1]), enums.JoinType.cross)
     if k == "replace_table":
         return A(node[1]).replace_table(A(node[2]) if node[2] is not None else None, A(node[3]) if node[3] is not None else None)
     raise HarnessError("unknown expression node %r" % (k,))
